@@ -681,6 +681,50 @@ def served_requests(r):
     return out
 
 
+def content_cases(r):
+    """for every served Metadata request of a run at rest: the driver call that makes Model/MetaHandlers.v predict the
+    job's result from the request tokens and the outcomes the adapter stub gives, and what the implementation did —
+    the CONTENT of each reply under the interleaving of this run (id / content cross-talk between concurrent jobs)"""
+    from props import c08
+    out = []
+    sc = r.sc
+    if sc.kind != 'meta' or not quiescent_ok(r) or any(l.kind == 'close' for l in delivered(r)):
+        return out
+    fi = first_init(sc)
+    if fi is None or fi.klass[2] != b'T' or fi.klass[3] == b'T' or sc.init_outcome != 'ret':
+        return out
+    rl = reply_lines(r)
+    for l in served_requests(r):
+        exp = expected_calls(l)
+        outs = []
+        raise_at = None
+        if isinstance(l.outcome, tuple):
+            raise_at = min(l.outcome[2] if len(l.outcome) > 2 else 0, max(len(exp) - 1, 0))
+        for j, name in enumerate(exp):
+            if raise_at == j:
+                e = lib_exc(l.outcome[1], '%s failed' % name)
+                cls = l.outcome[1]
+                code = {'CreditsError': -3, 'ConflictingSessionError': -4}.get(cls, 0)
+                um = 'user msg' if cls in ('CreditsError', 'ConflictingSessionError') else None
+                sid = 'sid' if cls == 'ConflictingSessionError' else None
+                outs.append([sym('raise'), c08.sx_exn(cls, str(e).encode('utf-8'), code, um, sid, False)])
+                break
+            v = WRONG[name] if (l.outcome == 'wrong' and WRONG_FOR.get(l.method) == name) else VALID.get(name)
+            outs.append([sym('ret'), ari.pyval(v)])
+        toks = l.text.decode('ascii').rstrip().split('|')[2:]
+        lines = rl.get(l.rid, [])
+        pre = l.wire_id + '|'
+        if len(lines) == 1 and lines[0][1].startswith(pre):
+            actual = [sym('reply'), lines[0][1][len(pre):].encode('utf-8')]
+        elif not lines:
+            actual = sym('none')
+        else:
+            actual = [sym('odd'), A(len(lines))]
+        out.append({'call': [sym('meta_handle'), sym(l.method), [t.encode('ascii') for t in toks], outs], 'actual': actual,
+                    'id': l.wire_id, 'line': l.text.decode('ascii', 'replace')})
+    return out
+
+
 def oracle_c04(r):
     out = []
     sc = r.sc
